@@ -131,7 +131,7 @@ class Report:
 
     # ---- the deciding step ---------------------------------------------------------
     def prove(self, label, goal, constraints, timeout_ms=30000, tactic=None, inputs=None, replay=None,
-              regions=None, sample=None):
+              regions=None, sample=None, linearize=False, quick_ms=4000, rounds=3):
         """Ask the solver for a counterexample to `goal` under `constraints`.
 
         inputs(model) -> JSON-able concrete inputs; replay(inputs) -> (bool reproduced, detail)
@@ -142,7 +142,25 @@ class Report:
 
         extra = []
         for _round in range(1 + len(self.known)):
-            v = refute(goal, list(constraints) + extra, timeout_ms, tactic)
+            if linearize:
+                # ring identity under polynomial equality hypotheses: the degree-bounded linearisation decided in
+                # linear arithmetic (symx/poly.py) first; if it is inconclusive, nlsat (finds counterexamples)
+                from symx.poly import NotPolynomial, prove_linearized_auto
+
+                try:
+                    v = prove_linearized_auto([goal], list(constraints) + extra, rounds=max(rounds, 6), timeout_ms=timeout_ms)
+                except NotPolynomial as e:
+                    from symx.core import Verdict
+
+                    v = Verdict("unknown", None, 0.0, f"not linearisable: {e}")
+                if v.status != "unsat":
+                    v1 = refute(goal, list(constraints) + extra, timeout_ms, tactic)
+                    v1.secs += v.secs
+                    if v1.status == "unknown":
+                        v1.reason = f"{v.reason}; nlsat: {v1.reason}"
+                    v = v1
+            else:
+                v = refute(goal, list(constraints) + extra, timeout_ms, tactic)
             it = self._item(label, "prove", v)
             if sample is not None:
                 self.sample({"obligation": f"{self.ob}:{label}", "verdict": v.status, "what": sample})
